@@ -95,6 +95,9 @@ TRACES['val'] = dict(driver='val-drive', module='Trace_Val', mod='val', runs=dic
 TRACES['br'] = dict(driver='bridge-drive', module='Trace_Bridge', mod='br', runs=dict(quick=9, thorough=40), length=dict(quick=200, thorough=250), timeout=dict(quick=400, thorough=3600),
                     inv_tags=dict(Solvency=['C08'], Holdings=['C08'], NoStuckTransfer=['C04'], Completeness=['C04', 'C08'], DrainedAfterCanonicalSchedule=['C08', 'C04']))
 
+TRACES['or'] = dict(driver='oracle-drive', module='Trace_Oracle', mod='or', runs=dict(quick=10, thorough=120), length=dict(quick=200, thorough=400), timeout=dict(quick=300, thorough=3000),
+                    inv_tags=dict(QuorumSound=['C15'], HeightNotOlder=['C15'], HostSetOnlyForward=['C15'], NoEffectOnReject=['C15']))
+
 # property -> engines.  `floor`: minimum counts below which the run is considered vacuous (exit 2).
 PROPERTIES = {
     'C01': dict(traces=['l1'], families=['l1.ledger'], title='L1 escrow conservation and isolation'),
@@ -111,7 +114,7 @@ PROPERTIES = {
     'C12': dict(traces=['l1', 'l2'], families=['l1.auth', 'l2.auth', 'val.valset', 'val.plan'], title='authorization'),
     'C13': dict(traces=['val'], families=['val.valset'], title='validator set equals what the engine was told'),
     'C14': dict(traces=['val'], families=['val.plan'], title='executor change plan'),
-    'C15': dict(families=['or.oracle', 'or.disabled'], title='oracle prices need a signed quorum'),
+    'C15': dict(traces=['or'], families=['or.oracle', 'or.disabled'], title='oracle prices need a signed quorum'),
     'C16': dict(traces=['l1', 'l2'], families=['l1.ledger', 'l2.deposit', 'val.valset'], title='genesis round trip'),
     'C17': dict(families=['fmt.formats'], title='commitment formats and purity'),
     'C20': dict(families=['ante.cases'], title='mempool admission'),
